@@ -10,7 +10,7 @@ from ..gen import meshes as gm
 CO = st.sampled_from([1.0, 0.5, 2.0, -1.0, 0.25, 1.5])
 SCALAR = {'line': ['ElementLineP1', 'ElementLineP2'], 'tri': ['ElementTriP1', 'ElementTriP2', 'ElementTriMini'],
           'quad': ['ElementQuad1', 'ElementQuad2'], 'tet': ['ElementTetP1'], 'hex': ['ElementHex1']}
-FAMILIES = ['quasilinear', 'exp', 'minsurf', 'logistic', 'sinrat', 'linear', 'energy', 'vector', 'composite', 'divide']
+FAMILIES = ['quasilinear', 'exp', 'minsurf', 'logistic', 'sinrat', 'linear', 'energy', 'vector', 'composite', 'divide', 'basis_product']
 
 
 @st.composite
@@ -20,7 +20,7 @@ def case_form(draw, tier):
     desc = draw(gm.mesh(kinds=kinds, max_cells=6, max_cells_3d=2, order2=False))
     kind = gm.mesh_kind(desc)
     return dict(mesh=desc, fam=fam, elem=draw(st.sampled_from(SCALAR[kind])), a=draw(CO), b=draw(CO), seed=draw(st.integers(0, 10**6)),
-                zero_x=draw(st.integers(0, 5)) == 0)
+                zero_x=draw(st.integers(0, 5)) == 0, nbases=draw(st.sampled_from([2, 3, 3])))
 
 
 def forms(fam, a, b, d):
@@ -178,6 +178,8 @@ def body_form(c, ctx):
         e = E() * getattr(skfem, SCALAR[kind][0])()
     else:
         e = E()
+    if fam == 'basis_product':
+        return body_basis_product(c, ctx, m, E)
     basis = CellBasis(m, e, intorder=4 if gm.mesh_kind(desc) != 'tet' else 4)
     jx, res, lin, params = forms(fam, c['a'], c['b'], m.dim())
     rng = np.random.RandomState(c['seed'])
@@ -224,6 +226,67 @@ def body_form(c, ctx):
             ctx.fail('linear_reduction', 'r != -(J x0 - b) for an integrand linear in u', **sig)
 
 
+def body_basis_product(c, ctx, m, E):
+    """several separate bases combined with CompositeBasis (as in the contact example): unknowns u_1..u_n live in different
+    spaces, cyclically coupled by  grad u_i . grad v_i + a u_i u_{i+1} v_i + b sin(u_i) v_i ; the oracle assembles every block
+    with ordinary forms and hand-made linearisations"""
+    import jax.numpy as jnp
+    import skfem
+    from skfem import BilinearForm, CellBasis, LinearForm
+    from skfem.assembly.basis.composite_basis import CompositeBasis
+    from skfem.autodiff import NonlinearForm
+    from skfem.autodiff import helpers as JH
+    from skfem.helpers import dot, grad
+    desc = c['mesh']
+    kind = gm.mesh_kind(desc)
+    n = c.get('nbases', 3)
+    a, b = c['a'], c['b']
+    els = [E, getattr(skfem, SCALAR[kind][0]), getattr(skfem, SCALAR[kind][-1])][:n]
+    bases = [CellBasis(m, e_(), intorder=4) for e_ in els]
+    cb = bases[0] * bases[1] if n == 2 else CompositeBasis(*bases)
+    sig = dict(fam='basis_product', nbases=n)
+    ctx.cls(desc['cls'], 'fam:basis_product', f'nbases={n}')
+    ctx.nt(True)
+
+    def F(*args):
+        us, vs = args[:n], args[n:2 * n]
+        out = 0
+        for i in range(n):
+            nx = us[(i + 1) % n]
+            out = out + JH.dot(JH.grad(us[i]), JH.grad(vs[i])) + a * us[i] * nx * vs[i] + b * jnp.sin(1.0 * us[i].value) * vs[i]
+        return out
+    rng = np.random.RandomState(c['seed'])
+    Ns = [bb.N for bb in bases]
+    off = np.concatenate([[0], np.cumsum(Ns)])
+    if cb.N != off[-1]:
+        ctx.fail('composite_basis_size', f'{cb.N} vs {off[-1]}', **sig)
+        return
+    x0 = rng.randint(-4, 5, cb.N) / 4.0
+    J, r = NonlinearForm(F).assemble(cb, x=x0.copy())
+    xs = [x0[off[i]:off[i + 1]] for i in range(n)]
+    prev = [bases[i].interpolate(xs[i]) for i in range(n)]
+    Fv = np.zeros(cb.N)
+    K = np.zeros((cb.N, cb.N))
+    for i in range(n):
+        j = (i + 1) % n
+        Fv[off[i]:off[i + 1]] = LinearForm(lambda v, w: dot(grad(w['ui']), grad(v)) + a * w['ui'] * w['un'] * v
+                                           + b * np.sin(w['ui']) * v).assemble(bases[i], ui=prev[i], un=prev[j])
+        Kii = BilinearForm(lambda u, v, w: dot(grad(u), grad(v)) + a * u * w['un'] * v + b * np.cos(w['ui']) * u * v
+                           ).assemble(bases[i], ui=prev[i], un=prev[j]).toarray()
+        Kij = BilinearForm(lambda u, v, w: a * w['ui'] * u * v).assemble(bases[j], bases[i], ui=prev[i]).toarray()
+        K[off[i]:off[i + 1], off[i]:off[i + 1]] += Kii
+        K[off[i]:off[i + 1], off[j]:off[j + 1]] += Kij
+    sF = 1.0 + np.abs(Fv).max()
+    if r.shape != Fv.shape or not np.allclose(r, -Fv, rtol=0, atol=1e-9 * sF):
+        ctx.fail('residual', f'basis product of {n}: returned vector differs from minus the block-assembled residual by '
+                 f'{np.abs(r + Fv).max() if r.shape == Fv.shape else "shape"}', **sig)
+    Jd = J.toarray()
+    sK = 1.0 + np.abs(K).max()
+    if Jd.shape != K.shape or not np.allclose(Jd, K, rtol=0, atol=1e-9 * sK):
+        ctx.fail('jacobian_hand', f'basis product of {n}: Jacobian differs from the block-assembled linearisation by '
+                 f'{np.abs(Jd - K).max() if Jd.shape == K.shape else "shape"}', **sig)
+
+
 # ------------------------------------------------------------------------------ helpers
 HELPERS = ['dot', 'ddot', 'dddot', 'prod2', 'prod3', 'mul', 'trace', 'transpose', 'eye', 'identity', 'det', 'inv', 'cross',
            'sym_grad', 'div', 'curl', 'grad', 'dd', 'mul_matmat']
@@ -233,7 +296,9 @@ HELPERS = ['dot', 'ddot', 'dddot', 'prod2', 'prod3', 'mul', 'trace', 'transpose'
 def case_helper(draw, tier):
     return dict(fn=draw(st.sampled_from(HELPERS)), n=draw(st.sampled_from([2, 3])),
                 trail=draw(st.sampled_from([[], [1], [3], [2, 3], [1, 1], [4, 2]])), seed=draw(st.integers(0, 10**6)),
-                lib=draw(st.sampled_from(['numpy', 'jax'])))
+                lib=draw(st.sampled_from(['numpy', 'jax'])),
+                # physical units: tensors of micro-scale or kilo-scale entries are as well conditioned as O(1) ones (powers of two)
+                scale=draw(st.sampled_from([0, 0, 0, -10, -20, -27, 10])))
 
 
 def body_helper(c, ctx):
@@ -260,13 +325,15 @@ def body_helper(c, ctx):
         Field = DiscreteField
         to = np.asarray
     sig = dict(fn=fn, lib=lib, n=n)
-    ctx.cls(lib, fn, f'n={n}', f'trail={len(trail)}')
+    ctx.cls(lib, fn, f'n={n}', f'trail={len(trail)}', *([f'scale=2^{c.get("scale", 0)}'] if fn in ('det', 'inv') else []))
     ctx.nt(n == 3 or len(trail) >= 1)
     ix = list(itertools.product(range(n), repeat=2))
 
-    def close(got, want):
+    s = 2.0 ** c.get('scale', 0)
+
+    def close(got, want, mag=1.0):
         got = np.asarray(got)
-        if got.shape != want.shape or not np.allclose(got, want, rtol=0, atol=1e-12 * (1 + np.abs(want).max())):
+        if got.shape != want.shape or not np.allclose(got, want, rtol=0, atol=1e-12 * mag * (1 + np.abs(want).max() / mag)):
             ctx.fail('helper_definition', f'{lib}.{fn} (n={n}, trailing axes {trail}): max diff '
                      f'{np.abs(got - want).max() if got.shape == want.shape else (got.shape, want.shape)}', **sig)
     if fn == 'dot':
@@ -311,15 +378,15 @@ def body_helper(c, ctx):
         close(M.identity(to(A[0, 0][(0,) * (len(trail) - 2)]), N=n), want)
     elif fn == 'det':
         A = rnd(n, n)
-        want = np.linalg.det(np.moveaxis(A, (0, 1), (-2, -1)))
-        close(M.det(to(A)), np.asarray(want))
+        want = np.linalg.det(np.moveaxis(A, (0, 1), (-2, -1))) * s ** n
+        close(M.det(to(A * s)), np.asarray(want), mag=s ** n)
     elif fn == 'inv':
         A = rnd(n, n) + 4.0 * np.eye(n).reshape((n, n) + (1,) * len(trail))
         Am = np.moveaxis(A, (0, 1), (-2, -1))
         if np.abs(np.linalg.det(Am)).min() < 0.5:
             return
-        want = np.moveaxis(np.linalg.inv(Am), (-2, -1), (0, 1))
-        close(M.inv(to(A)), want)
+        want = np.moveaxis(np.linalg.inv(Am), (-2, -1), (0, 1)) / s
+        close(M.inv(to(A * s)), want, mag=1.0 / s)
     elif fn == 'cross':
         u, v = rnd(n), rnd(n)
         if n == 2:
